@@ -59,6 +59,7 @@ type caller struct {
 	gotMarker  int64 // -1 = none
 	gotSerial  int64
 	gotHandle  uint32
+	gotBulk    int // length of the bulk payload of a multi-chunk response (-1: none / damaged)
 	assignErr  error
 	done       chan struct{}
 }
@@ -176,6 +177,38 @@ func (e *env) scenario1(seed uint64, idx int) {
 		}
 		serial++
 	}
+	// a response that needs several chunks: its bulk payload repeats the low byte of the marker
+	bulkLen := map[uint32]int{}
+	bigResp := func(reqID, marker uint32, n int) *ua.ReadResponse {
+		b := make([]byte, n)
+		for i := range b {
+			b[i] = byte(marker)
+		}
+		bulkLen[marker] = n
+		return &ua.ReadResponse{ResponseHeader: hdr(reqID, serial, ua.StatusOK),
+			Results: []*ua.DataValue{{EncodingMask: ua.DataValueValue, Value: ua.MustVariant(int64(marker))},
+				{EncodingMask: ua.DataValueValue, Value: ua.MustVariant(b)}}}
+	}
+	// sendInterleaved writes the chunks of two multi-chunk responses alternately; the message whose final
+	// chunk goes out first arrives first
+	sendInterleaved := func(idA uint32, a *ua.ReadResponse, idB uint32, b *ua.ReadResponse) {
+		ca, err1 := h.PeerChunksMSG(7, 3, idA, a, 300)
+		cb, err2 := h.PeerChunksMSG(7, 3, idB, b, 300)
+		if err1 != nil || err2 != nil {
+			r.InfraError = fmt.Sprintf("peer encode: %v %v", err1, err2)
+			return
+		}
+		for len(ca) > 0 || len(cb) > 0 {
+			if len(ca) > 0 {
+				h.PeerWriteChunk(srv, ca[0], &peerSeq)
+				ca = ca[1:]
+			}
+			if len(cb) > 0 {
+				h.PeerWriteChunk(srv, cb[0], &peerSeq)
+				cb = cb[1:]
+			}
+		}
+	}
 	readResp := func(reqID, marker uint32) *ua.ReadResponse {
 		return &ua.ReadResponse{ResponseHeader: hdr(reqID, serial, ua.StatusOK),
 			Results: []*ua.DataValue{{EncodingMask: ua.DataValueValue, Value: ua.MustVariant(int64(marker))}}}
@@ -225,8 +258,19 @@ func (e *env) scenario1(seed uint64, idx int) {
 				if c.assignErr != nil {
 					return c.assignErr
 				}
-				if len(res.Results) == 1 && res.Results[0].Value != nil {
+				if len(res.Results) >= 1 && res.Results[0].Value != nil {
 					c.gotMarker = res.Results[0].Value.Int()
+				}
+				if len(res.Results) == 2 && res.Results[1].Value != nil {
+					if b, ok := res.Results[1].Value.Value().([]byte); ok {
+						c.gotBulk = len(b)
+						for _, x := range b {
+							if x != byte(c.gotMarker) {
+								c.gotBulk = -1 // bytes of another response mixed in
+								break
+							}
+						}
+					}
 				}
 				return nil
 			})
@@ -366,13 +410,51 @@ func (e *env) scenario1(seed uint64, idx int) {
 		send(id, readResp(id, 0))
 		r.Hit("peer:unsolicited")
 	}
-	for _, c := range todo {
+	skip := map[int]bool{}
+	for ti, c := range todo {
 		id := pending[c.marker]
+		if skip[c.k] {
+			r.Hit("plan:" + planNames[c.plan])
+			continue
+		}
 		if order.Chance(25) {
 			unsolicited()
 		}
 		switch c.plan {
 		case pAnswer:
+			// multi-chunk answers: alone (3–9 chunks of 300 bytes) or interleaved chunk by chunk with the next plain answer
+			if order.Chance(40) {
+				var mate *caller
+				for _, d := range todo[ti+1:] {
+					if d.plan == pAnswer && !skip[d.k] {
+						mate = d
+						break
+					}
+				}
+				if mate != nil && order.Bool() {
+					idB := pending[mate.marker]
+					ra := bigResp(id, c.marker, 700+order.Intn(1800))
+					serial++
+					rb := bigResp(idB, mate.marker, 700+order.Intn(1800))
+					serial--
+					// arrival order = order of the final chunks
+					da, _ := h.PeerChunksMSG(7, 3, id, ra, 300)
+					db, _ := h.PeerChunksMSG(7, 3, idB, rb, 300)
+					la, lb := len(da), len(db) // A's k-th chunk is written before B's k-th chunk
+					if lb < la {
+						// B completes first: it must carry the lower arrival number
+						ra.ResponseHeader.Timestamp, rb.ResponseHeader.Timestamp = rb.ResponseHeader.Timestamp, ra.ResponseHeader.Timestamp
+					}
+					sendInterleaved(id, ra, idB, rb)
+					serial += 2
+					skip[mate.k] = true
+					r.Hit("peer:interleaved-multi-chunk")
+				} else {
+					send(id, bigResp(id, c.marker, 700+order.Intn(1800)))
+					r.Hit("peer:multi-chunk")
+				}
+				break
+			}
 			send(id, readResp(id, c.marker))
 		case pFault:
 			send(id, &ua.ServiceFault{ResponseHeader: hdr(id, serial, ua.StatusBadNodeIDUnknown)})
@@ -500,6 +582,9 @@ func (e *env) scenario1(seed uint64, idx int) {
 			if idUsers[own] > 1 {
 				r.Hit("id-reused-after-release")
 			}
+		}
+		if n, big := bulkLen[c.marker]; big && c.err == nil && c.handlerRan && c.gotBulk != n {
+			r.Fail(caseName, "", fmt.Sprintf("caller %d got a multi-chunk response whose %d payload bytes are not its own (%d intact)", c.k, n, c.gotBulk))
 		}
 		if c.handlerRan && c.gotSerial >= 0 {
 			if other, dup := serialSeen[c.gotSerial]; dup {
@@ -1006,7 +1091,7 @@ func main() {
 		}
 	}
 	for _, b := range []string{"label:setctr", "label:nextid", "label:register", "label:pop", "label:deliver", "label:recv", "label:abandon",
-		"outcome:ok", "outcome:timeout", "outcome:cancelled", "outcome:wrong-type-error", "outcome:refused-duplicate", "peer:unsolicited", "peer:late-response", "plan:notresponse", "scenario:forced-late-handover"} {
+		"outcome:ok", "outcome:timeout", "outcome:cancelled", "outcome:wrong-type-error", "outcome:refused-duplicate", "peer:unsolicited", "peer:late-response", "plan:notresponse", "scenario:forced-late-handover", "peer:multi-chunk", "peer:interleaved-multi-chunk"} {
 		if r.Distribution[b] == 0 {
 			r.Unreached = append(r.Unreached, b)
 		}
